@@ -2,6 +2,9 @@
   PrtpyProofs.CKKDedupe — properties C06 ("`out.Sums` = sums of `out.Partition`") and C07 ("list input = dict
   input") for **complete Karmarkar–Karp with three or more bins**: the *whole vector of sums*.
 
+  (`ckk` is the code before fix F11; for the repaired code `ckkF` both properties hold: PrtpyProofs/CKKF.lean.  `snp`
+  and `rnpF` call `ckkF` for their 2-way splits since F11; §2–§4 below are about them as they are now.)
+
   RESULT: BOTH PROPERTIES ARE FALSE for `ckk` (model and real library, 4 bins; model also 5 bins), only the *difference* between the
   largest and the smallest sum is invariant.
 
@@ -48,6 +51,9 @@ import PrtpyProofs.CKKValid
 import PrtpyProofs.CKKOpt
 import PrtpyProofs.SumsOnly
 import PrtpyProofs.Scale
+import PrtpyProofs.CKKF
+import PrtpyProofs.CKKFSwitch
+import PrtpyProofs.CKKFSwitch2
 import Mathlib.Data.List.Perm.Basic
 open Prtpy
 
@@ -482,16 +488,16 @@ theorem ckk2_sums_values {v nm : α → Nat} [BEq α] [LawfulBEq α] {c c' : Boo
     · rename_i hne'
       have hne0 : rem ≠ [] := by simpa using hne
       have hne0' : remN ≠ [] := by simpa using hne'
-      obtain ⟨r₁, o₁⟩ := SumsOnly.ckk_real_optimal c (by decide) hne0 h
-      obtain ⟨r₂, o₂⟩ := SumsOnly.ckk_real_optimal c' (by decide) hne0' h'
+      obtain ⟨r₁, o₁⟩ := CKKF.ckkF_real_optimal c (by decide) hne0 h
+      obtain ⟨r₂, o₂⟩ := CKKF.ckkF_real_optimal c' (by decide) hne0' h'
       rw [List.map_id] at o₂
       have hv := Oracle.isOptimalValue_unique (Scale.isOptimal_perm hp o₁) o₂
       rw [value_minDiff, value_minDiff] at hv
       have hv' : spread two.sums = spread two'.sums := by exact_mod_cast hv
       obtain ⟨x, y, hxy, hsum⟩ := SumsOnly.two_sums r₁
       obtain ⟨x', y', hxy', hsum'⟩ := SumsOnly.two_sums r₂
-      have s₁ := SumsOnly.ckk_sums_sorted h
-      have s₂ := SumsOnly.ckk_sums_sorted h'
+      have s₁ := CKKF.ckkF_sums_sorted h
+      have s₂ := CKKF.ckkF_sums_sorted h'
       have ht : binSum v rem = binSum id remN := by
         unfold binSum
         rw [List.map_id]
